@@ -25,15 +25,20 @@ The preconditions and the call sites of the abstract primitives that establish t
   `Graph.delNodeRaw`     Ops.deleteNode, Ops.replaceNodeBase, none
                          OpsImpl.dropNewNodes, OpsImpl.replaceNodeBaseImpl
 
-`addNode_is_run` … `addEdgeE_is_run` exhibit public mutators as runs of primitive calls that meet `RunPre`
-from any `WF` state, so that `refines_run` applies to them.  NOT proved here: the same decomposition for the
-remaining composite mutators (`changeEdgeType`, `replaceEdge`, `replaceNodeBase` with a new identifier, the bulk
-adders); they are compositions of the mutators treated here, each step of which re-establishes `WF`
-(`CG/Proofs/WFStep.lean`).  See `all_mutators_are_runs_statement`.
+`elem_is_prim`, `chain_is_run`, `stepRef_is_run`, `runRef_is_run`, `history_refines`: EVERY public mutator (the state
+machine `stepRef` of `CG/Model/Step.lean`: single-element mutators and bulk adders of both classes), and every history
+of them from the constructor, is a run of primitive calls meeting `RunPre`; so `refines_run` applies to all of them.
+This rests on the decomposition `stepRef_chain` (`CG/Proofs/Lemmas/Decomp.lean`) and, for the mechanism-level run
+with rollbacks, on C03 (`step_eq_stepRef`: same END state of every call).  What is NOT covered: the index containers
+in the MIDDLE of a composite call that rolls back (only `_set_edge`'s own rollback is: `setEdgeImpl_is_run`); since
+deletions need no precondition and every insertion site has been checked, nothing is expected there, but no theorem
+states it for `addEdgeImpl`, `changeEdgeTypeImpl`, `replaceEdgeImpl`, `replaceNodeBaseImpl`.
 -/
 import CG.Proofs.Lemmas.IndexReaders
 import CG.Proofs.Lemmas.C03Prims
 import CG.Proofs.C01Views
+import CG.Proofs.WFStep
+import CG.Proofs.C03
 
 namespace CG.IndexRefine
 open CG CG.Indexed Std
@@ -255,27 +260,85 @@ theorem addEdgeE_is_run {g g' : Graph} (hw : WF g) {s d : Endpoint} {ty : EdgeTy
             · rw [runPre_append, runPre_append]
               exact ⟨hp1, hp2, hp3⟩
 
-/-- the full statement the run decomposition aims at (NOT proved; see the header): every successful public
-    mutator of `Ops.lean` from a `WF` state is a run of primitive calls meeting `RunPre` -/
-def all_mutators_are_runs_statement : Prop :=
-  ∀ (g g' : Graph), WF g →
-    ((∃ s d nt, changeEdgeType g s d nt = .ok g') ∨
-     (∃ s d ns nd ty? m?, replaceEdge g s d ns nd ty? m? = .ok g') ∨
-     (∃ n new? lag? var? vt? m?, replaceNode g n new? lag? var? vt? m? = .ok g')) →
-    ∃ ps, g' = Run ps g ∧ RunPre ps g
+/-! ### every mutator, every history
 
-/-- what is proved of it: the single-step mutators and `add_edge` -/
-theorem all_mutators_are_runs_partial (g g' : Graph) (hw : WF g) :
-    ((∃ id vt m, addNode g id vt m = .ok g') ∨ (∃ id vt m, addNodeObj g id vt m = .ok g') ∨
-     (∃ s d ty m v, addEdgeE g s d ty m v = .ok g') ∨ (∃ s d ty?, deleteEdge g s d ty? = .ok g') ∨
-     (∃ n, deleteNode g n = .ok g')) →
+`CG/Proofs/Lemmas/Decomp.lean` decomposes EVERY public mutator of the state machine (`stepRef`: the single-element
+mutators, the bulk adders, both classes) into a `Chain` of elementary changes `Elem`, each of which is one of the four
+primitives together with the facts its call site has established.  Those facts imply `PreG`. -/
+
+theorem elem_is_prim {v : Bool} {g g' : Graph} (hw : WF g) (he : Elem v g g') :
+    ∃ p : Prim, g' = p.runG g ∧ PreG g p := by
+  cases he with
+  | @addNode i r hn _ => exact ⟨.insNode i r, rfl, preG_fresh hw hn r⟩
+  | @editNode i r0 r h0 hvar hlag _ =>
+    refine ⟨.insNode i r, rfl, ?_, ?_⟩
+    · intro r1 h1 _
+      rw [h0] at h1; cases h1; exact ⟨hlag, hvar⟩
+    · intro hnone; rw [h0] at hnone; cases hnone
+  | @addEdge s d r _ _ _ _ hsd _ _ =>
+    exact ⟨.insEdge s d r, rfl, preG_insEdge_of_checks r ((hasEdge_false_iff g s d).mpr hsd)⟩
+  | delEdge s d => exact ⟨.delEdge s d, rfl, trivial⟩
+  | delNode n => exact ⟨.delNode n, rfl, trivial⟩
+
+theorem chain_is_run {v : Bool} {g g' : Graph} (hw : WF g) (hc : Chain v g g') :
     ∃ ps, g' = Run ps g ∧ RunPre ps g := by
-  rintro (⟨_, _, _, h⟩ | ⟨_, _, _, h⟩ | ⟨_, _, _, _, _, h⟩ | ⟨_, _, _, h⟩ | ⟨_, h⟩)
-  · exact addNode_is_run hw h
-  · exact addNodeObj_is_run hw h
-  · exact addEdgeE_is_run hw h
-  · exact deleteEdge_is_run h
-  · exact deleteNode_is_run h
+  induction hc with
+  | refl => exact ⟨[], rfl, trivial⟩
+  | tail hc1 he ih =>
+    obtain ⟨ps, rfl, hp⟩ := ih
+    obtain ⟨p, rfl, hpp⟩ := elem_is_prim (wf_chain hw hc1) he
+    refine ⟨ps ++ [p], ?_, ?_⟩
+    · rw [run_append]; rfl
+    · rw [runPre_append]; exact ⟨hp, hpp, trivial⟩
+
+/-- every call of the state machine (any public mutator, failing or not, either class) from a `WF` state is a run
+    of primitive calls each of which meets its precondition -/
+theorem stepRef_is_run {g : Graph} (hw : WF g) (op : Op) :
+    ∃ ps, (stepRef g op).1 = Run ps g ∧ RunPre ps g := chain_is_run hw (stepRef_chain g op)
+
+theorem runRef_is_run {g : Graph} (hw : WF g) (ops : List Op) :
+    ∃ ps, runRef g ops = Run ps g ∧ RunPre ps g := by
+  induction ops generalizing g with
+  | nil => exact ⟨[], rfl, trivial⟩
+  | cons op ops ih =>
+    obtain ⟨ps1, h1, hp1⟩ := stepRef_is_run hw op
+    obtain ⟨ps2, h2, hp2⟩ := ih (wf_stepRef hw op)
+    refine ⟨ps1 ++ ps2, ?_, ?_⟩
+    · rw [runRef_cons, h2, h1, run_append]
+    · rw [runPre_append, ← h1]; exact ⟨hp1, hp2⟩
+
+/-- **R3 for whole histories**: for every history of public calls from the constructor there is a sequence of
+    index-level primitive calls whose result is coherent (`Mirror`) and abstracts to the state the one-map model
+    reaches -- both for the reference semantics (`runRef`) and for the mechanism-level one (`run`: writes and
+    rollbacks as the code performs them; equal end states by C03) -/
+theorem history_refines (c : GraphClass) (gm : Meta) (ops : List Op) :
+    ∃ ps, abs (IRun ps (IGraph.empty c gm)) = runRef (Graph.empty c gm) ops ∧
+          abs (IRun ps (IGraph.empty c gm)) = run (Graph.empty c gm) ops ∧
+          Mirror (IRun ps (IGraph.empty c gm)) := by
+  obtain ⟨ps, h1, hp⟩ := runRef_is_run (wf_empty c gm) ops
+  obtain ⟨h2, h3⟩ := refines_from_empty c gm ps hp
+  have h4 := (wf_run (fun g op hw => CG.C03.step_eq_stepRef hw op) (wf_empty c gm) ops).2
+  exact ⟨ps, by rw [h2, h1], by rw [h2, h4, h1], h3⟩
+
+/-- the rollback inside `_set_edge` as the code performs it (insert, cycle check, `delete_edge`): also a run
+    meeting the preconditions, from ANY state -/
+theorem setEdgeImpl_is_run (g : Graph) (s d : String) (r : EdgeRec) (v : Bool) :
+    ∃ ps, (setEdgeImpl g s d r v).1 = Run ps g ∧ RunPre ps g := by
+  unfold setEdgeImpl
+  split
+  · exact ⟨[], rfl, trivial⟩
+  · split
+    · exact ⟨[], rfl, trivial⟩
+    · rename_i _ h2
+      have hp : PreG g (.insEdge s d r) := preG_insEdge_of_checks r (by simpa using h2)
+      simp only
+      split
+      · cases hde : deleteEdge (g.insEdge s d r) s d none with
+        | error e => exact ⟨[.insEdge s d r], rfl, hp, trivial⟩
+        | ok g'' =>
+          obtain ⟨ps, h1, hp1⟩ := deleteEdge_is_run hde
+          exact ⟨.insEdge s d r :: ps, by simp only [h1]; rfl, hp, hp1⟩
+      · exact ⟨[.insEdge s d r], rfl, hp, trivial⟩
 
 /-! ### R4: readers -/
 
